@@ -417,6 +417,20 @@ func (a *App) clean(spokfile *file.SpokFile) error {
 		if err == nil && rel != ".." && !strings.HasPrefix(rel, ".."+string(filepath.Separator)) {
 			return fmt.Errorf("Refusing to remove %s: it is or contains the spokfile at %s", file, spokfile.Path)
 		}
+		// The project may be reached through a symbolic link while the output is spelled with the
+		// physical path (or the other way round), so also compare what is actually on disk
+		info, err := os.Lstat(file)
+		if err != nil {
+			continue
+		}
+		for above := spokfile.Path; ; above = filepath.Dir(above) {
+			if other, err := os.Stat(above); err == nil && os.SameFile(info, other) {
+				return fmt.Errorf("Refusing to remove %s: it is or contains the spokfile at %s", file, spokfile.Path)
+			}
+			if filepath.Dir(above) == above {
+				break
+			}
+		}
 	}
 
 	for _, file := range toRemove {
